@@ -615,9 +615,96 @@ func (s *shRun) related(start, pred string, inv bool, sc []string, limit int) (m
 	return set, dups, false
 }
 
+// relatedMulti runs one outgoing relation query over HTTP for several start entities at once, following all
+// continuation tokens; it returns the (start, predicate, other) triples, the triples returned twice and the pages read.
+func (s *shRun) relatedMulti(starts []string, pred string, sc []string, limit, maxPages int) (map[[3]string]bool, [][3]string, int, bool) {
+	q := map[string]any{"startingEntities": starts, "predicate": pred, "inverse": false, "limit": limit}
+	if sc != nil {
+		q["datasets"] = sc
+	}
+	set := map[[3]string]bool{}
+	var dups [][3]string
+	for page := 1; page <= maxPages; page++ {
+		arr, ok := s.query(q)
+		if !ok {
+			return nil, nil, page, false
+		}
+		if arr == nil {
+			return set, dups, page, true
+		}
+		ns := shContext(arr[0])
+		if len(arr) > 1 {
+			if rows, ok := arr[1].([]any); ok {
+				for _, row := range rows {
+					cols, ok := row.([]any)
+					if !ok || len(cols) < 3 {
+						continue
+					}
+					st, _ := cols[0].(string)
+					p, _ := cols[1].(string)
+					other := ""
+					if m, ok := cols[2].(map[string]any); ok {
+						if oid, ok := m["id"].(string); ok {
+							other = shExpand(ns, oid)
+						}
+					}
+					t := [3]string{shExpand(ns, st), shExpand(ns, p), other}
+					if set[t] {
+						dups = append(dups, t)
+					}
+					set[t] = true
+				}
+			}
+		}
+		if len(arr) < 3 {
+			return set, dups, page, true
+		}
+		conts, _ := arr[2].([]any)
+		if len(conts) == 0 {
+			return set, dups, page, true
+		}
+		q = map[string]any{"continuations": conts, "limit": limit}
+	}
+	return set, dups, maxPages, true
+}
+
 func (s *shRun) checkRelations() {
 	if !s.ctx.Has("C03") {
 		return
+	}
+	// several start entities in one paged query (several continuation tokens outstanding at once)
+	for _, sc := range s.scopes() {
+		for _, lim := range []int{1, 2} {
+			want := map[[3]string]bool{}
+			var starts []string
+			for _, st := range s.vocab.IDs {
+				// (only identifiers the hub has stored an entity for: what it answers for a start it has never seen
+				// is not part of the statement)
+				if !s.m.Lookup(st, nil, -1).Known {
+					continue
+				}
+				starts = append(starts, st)
+				for pr := range s.m.Related(st, "*", false, sc, -1) {
+					want[[3]string{st, pr.Pred, pr.Other}] = true
+				}
+			}
+			if len(starts) < 2 {
+				continue
+			}
+			maxPages := len(want) + len(starts) + 5
+			got, dups, pages, ok := s.relatedMulti(starts, "*", sc, lim, maxPages)
+			if !ok {
+				return
+			}
+			qd := fmt.Sprintf("POST /query startingEntities=%v pred=* inverse=false datasets=%v limit=%d", starts, sc, lim)
+			switch {
+			case len(dups) > 0:
+				s.viol("C03", "http-outgoing-paged-multi-start-duplicate", qd+fmt.Sprintf(": a triple was returned twice (%d pages read)", pages), nil, fmt.Sprint(dups))
+			case !reflect.DeepEqual(want, got):
+				s.viol("C03", "http-outgoing-paged-multi-start", qd+fmt.Sprintf(": following the continuation tokens (%d pages) yields %d triples, the graph of latest versions has %d", pages, len(got), len(want)), fmt.Sprint(want), fmt.Sprint(got))
+			}
+			s.ctx.Out.Stat("http_multi_start_paged_queries", 1)
+		}
 	}
 	preds := append([]string{"*"}, s.vocab.Preds...)
 	for _, sc := range s.scopes() {
